@@ -232,3 +232,27 @@ def degenerate(seed, tier):
                         fails.append({"family": fam, "config": {k: v for k, v in kk.items() if k != "random_state"}, "violations": bad})
         res[name] = (nfit, fails)
     return res
+
+
+def int_data(seed):
+    """C04 (B): integer-typed finite data is legal; it must give the same model as its float copy (no silent truncation)"""
+    rs = np.random.RandomState(seed)
+    n, d = 12, 3
+    Xi = rs.randint(-6, 7, size=(n, d))
+    res = {}
+    for name, cls in estimators().items():
+        kw = dict(max_clusters=3, random_state=seed) if name == "Kauri" else dict(n_clusters=2, max_iter=3, random_state=seed)
+        try:
+            with warnings.catch_warnings():
+                warnings.simplefilter("ignore")
+                a = cls(**kw).fit(Xi)
+                b = cls(**kw).fit(Xi.astype(float))
+                ok = np.array_equal(a.labels_, b.labels_)
+                if name != "Kauri":
+                    ok = ok and all(np.allclose(u, v, rtol=1e-10, atol=1e-12) for u, v in zip(a._get_weights(), b._get_weights()))
+                    ok = ok and np.allclose(a.predict_proba(Xi), b.predict_proba(Xi.astype(float)), rtol=1e-10, atol=1e-12)
+                det = {} if ok else {"X": Xi.tolist(), "labels int": a.labels_.tolist(), "labels float": b.labels_.tolist()}
+        except Exception as e:
+            ok, det = False, {"raised": repr(e)[:200], "X": Xi.tolist()}
+        res[name] = (ok, det)
+    return res
